@@ -654,6 +654,12 @@ def run_task(task):
         for _ in range(max(2, k // 2)):
             out.append(faults.random_fault(brng, data0, "token_drop"))
             out.append(faults.random_fault(brng, data0, "int_nudge"))
+        if b"each geome" in data0:
+            # formatted checkpoint trajectories announce the size of every per-point block: each of them loses one of q equal
+            # parts (one point of q): frames must not disappear without LoadError or LoadWarning
+            for blk in range(3):
+                for q in (2, 3, 4, 5, 6, 7):
+                    out.append({"kind": "int_nudge", "i": blk, "how": f"drop1of{q}", "aim": "traj_count"})
         return out
 
     viols, n = check_source(trace, stats, cuts, corruptions)
